@@ -347,6 +347,21 @@ func c04Run(run *ev.Run) {
 		}
 		run.Extra["levels_"+store] = st.LevelSizes
 	}
+	// endpoints from discovery, plain and with the rich metadata document (a provider that advertises "plain" PKCE,
+	// other client authentication methods, ...): the binding must be the same whatever a provider advertises
+	for _, spec := range []world.Spec{{Store: "memory", Forward: true, Discovery: true}, {Store: "memory", Forward: true, Discovery: true, RichDiscovery: true}} {
+		o := c04Opts(run.Tier, spec)
+		o.NearMiss, o.Replays, o.MaxSessions = false, true, 2
+		m := o.model(c04Monitor(run, spec))
+		m.MaxDepth = 4
+		st := seqx.Explore(run, m)
+		states += st.States
+		trans += st.Transitions
+		traces += st.Histories
+		if !st.Complete {
+			run.Cap(fmt.Sprintf("discovery histories (rich=%v) stopped at depth %d", spec.RichDiscovery, st.DepthDone))
+		}
+	}
 	for _, sc := range c04Scenarios(run.Tier) {
 		cs := schedx.Explore(run, "C04", sc)
 		traces += cs.Schedules
